@@ -638,3 +638,8 @@ mod tests {
         Ok(())
     }
 }
+
+#[cfg(kani)]
+mod verif_kani {
+    include!(concat!(env!("IPA_VERIF_DIR"), "/kani/validator.rs"));
+}
